@@ -2,7 +2,6 @@ package props
 
 import (
 	"fmt"
-	"go/constant"
 	"go/token"
 	"sort"
 	"strings"
@@ -12,7 +11,6 @@ import (
 	"utilcheck/flow"
 	"utilcheck/lang"
 	"utilcheck/pred"
-	"utilcheck/tab"
 )
 
 func init() {
@@ -287,157 +285,6 @@ func romanAlphabet(e *Env) string {
 		return ""
 	}
 	return sp.Alphabet(ds[0])
-}
-
-// ruleC10Groups: the groups table and how DefaultParser pairs it with the capture groups.
-func ruleC10Groups(e *Env) {
-	const rule = "C10.groups"
-	p := e.P.ByPkg["roman"]
-	dp := e.Fn(rule, "roman", "DefaultParser")
-	if p == nil || dp == nil {
-		return
-	}
-	rows, pos, err := tab.StructRows(p, "groups")
-	if err != nil {
-		e.S.Unk(rule, "roman.groups", "literal", err.Error(), "")
-		return
-	}
-	if g := e.Var(rule, "roman", "groups"); g != nil {
-		e.Flow(func(c *flow.Ctx) { c.RuleTableConst(rule, g) })
-	}
-	pp := e.P.SSA.Fset.Position(pos)
-	tpos := shortPos(pp.Filename, pp.Line)
-	want := []struct {
-		unit      int64
-		five, ten rune
-		one       rune
-	}{{100, 'D', 'M', 'C'}, {10, 'L', 'C', 'X'}, {1, 'V', 'X', 'I'}}
-	if len(rows) != 3 {
-		e.S.Bad(rule, "roman.groups", "length", fmt.Sprintf("%d groups, the numeral has hundreds, tens and units", len(rows)), tpos, "")
-		return
-	}
-	for i, r := range rows {
-		construct := fmt.Sprintf("[%d]", i)
-		u, ok1 := constInt64(r["Unit"])
-		f, ok2 := constInt64(r["Digit5"])
-		t, ok3 := constInt64(r["Digit10"])
-		switch {
-		case !ok1 || !ok2 || !ok3:
-			e.S.Unk(rule, "roman.groups", construct, "row is not {Unit, Digit5, Digit10} of constants", tpos)
-		case u != want[i].unit || rune(f) != want[i].five || rune(t) != want[i].ten:
-			e.S.Bad(rule, "roman.groups", construct, fmt.Sprintf("row %d is (%d, %q, %q); capture group %d is the %s group: (%d, %q, %q)", i, u, rune(f), rune(t), i+2, []string{"hundreds", "tens", "units"}[i], want[i].unit, want[i].five, want[i].ten), tpos, "")
-		default:
-			e.S.Ok(rule, "roman.groups", construct, fmt.Sprintf("(%d, %q, %q) ↔ capture %d", u, rune(f), rune(t), i+2), tpos)
-		}
-	}
-	// pairing in the parser: thousands = len(capture 1) * 1000; group i ↔ capture i+2; results accumulated by +
-	site := flow.FnName(dp)
-	thousandsOK, pairingOK, accOK := false, false, false
-	var accPhi *ssa.Phi
-	for _, b := range dp.Blocks {
-		for _, in := range b.Instrs {
-			switch x := in.(type) {
-			case *ssa.BinOp:
-				if x.Op == token.MUL {
-					if k, ok := flow.ConstInt(x.Y); ok && k == 1000 {
-						if a, ok := flow.IsLenOf(x.X); ok {
-							if c, ok := captureIndexOf(a); ok && c == 1 {
-								thousandsOK = true
-							}
-						}
-					}
-				}
-			case *ssa.Call:
-				callee := e.C.StaticCallee(&x.Call)
-				if callee == nil || !flow.InRepo(callee) || len(x.Call.Args) != 4 {
-					continue
-				}
-				// arg0 = p[i+2] with i the range index over groups; args 1..3 = fields 0,1,2 of the range element
-				u, ok := x.Call.Args[0].(*ssa.UnOp)
-				if !ok {
-					continue
-				}
-				ia, ok := u.X.(*ssa.IndexAddr)
-				if !ok {
-					continue
-				}
-				add, ok := ia.Index.(*ssa.BinOp)
-				if !ok || add.Op != token.ADD {
-					continue
-				}
-				k, isK := flow.ConstInt(add.Y)
-				if !isK || k != 2 {
-					e.S.Bad(rule, site, "pairing", fmt.Sprintf("group i is paired with capture i+%d; capture 1 is the thousands, so the groups start at capture 2", k), e.posOf(x), "")
-					pairingOK = true
-					continue
-				}
-				fieldsOK := true
-				for ai := 1; ai <= 3; ai++ {
-					ld, ok := x.Call.Args[ai].(*ssa.UnOp)
-					if !ok {
-						fieldsOK = false
-						continue
-					}
-					fa, ok := ld.X.(*ssa.FieldAddr)
-					if !ok || fa.Field != ai-1 {
-						fieldsOK = false
-					}
-				}
-				if fieldsOK {
-					pairingOK = true
-					e.S.Ok(rule, site, "pairing", "group i is evaluated on capture i+2 with (Unit, Digit5, Digit10) of groups[i]", e.posOf(x))
-				} else {
-					pairingOK = true
-					e.S.Bad(rule, site, "pairing", "the value function does not receive (Unit, Digit5, Digit10) of the same group in that order", e.posOf(x), "")
-				}
-				for _, r := range *x.Referrers() {
-					if bo, ok := r.(*ssa.BinOp); ok && bo.Op == token.ADD {
-						if ph, ok := bo.X.(*ssa.Phi); ok {
-							accPhi = ph
-							accOK = true
-						}
-					}
-				}
-			}
-		}
-	}
-	if thousandsOK {
-		e.S.Ok(rule, site, "thousands", "thousands = len(capture 1) × 1000", e.Pos(dp))
-	} else {
-		e.S.Bad(rule, site, "thousands", "the thousands are not computed as len(capture 1) × 1000", e.Pos(dp), "MM")
-	}
-	if !pairingOK {
-		e.S.Unk(rule, site, "pairing", "call of the value function on p[i+2] not found", e.Pos(dp))
-	}
-	if accOK && accPhi != nil {
-		e.S.Ok(rule, site, "sum", "group values are added to the running total", e.Pos(dp))
-	} else {
-		e.S.Bad(rule, site, "sum", "group values are not summed into the result", e.Pos(dp), "")
-	}
-}
-
-func constInt64(v constant.Value) (int64, bool) {
-	if v == nil || v.Kind() != constant.Int {
-		return 0, false
-	}
-	return constant.Int64Val(v)
-}
-
-// captureIndexOf: v is p[k] (load of element k of a FindSubmatch result), k constant.
-func captureIndexOf(v ssa.Value) (int64, bool) {
-	u, ok := v.(*ssa.UnOp)
-	if !ok {
-		return 0, false
-	}
-	ia, ok := u.X.(*ssa.IndexAddr)
-	if !ok {
-		return 0, false
-	}
-	call, ok := ia.X.(*ssa.Call)
-	if !ok || call.Call.StaticCallee() == nil || !isSubmatchCallee(call.Call.StaticCallee().String()) {
-		return 0, false
-	}
-	return flow.ConstInt(ia.Index)
 }
 
 // ruleC10Value: the value function of a group as a decision table, and that table evaluated (inside the checker)
